@@ -56,7 +56,7 @@ def exact_list(vals):
 
 
 # ------------------------------------------------------------------- line
-DURS = ["1/2", "1", "2", "12/5", "5/2", "3", "7/2", "5"]
+DURS = ["1/2", "1", "2", "12/5", "5/2", "3", "7/2", "5", "64", "129/2", "2001/2"]
 VALS = ["0", "1", "-1", "1/3", "5/2"]
 
 
@@ -245,6 +245,10 @@ def gen_modcounter(run):
             if vary and not (mask & 5):
               continue
             yield (start, mod, step, mask, vary, run.pick(24, 60))
+  # long runs: many wraps, many batches of the numbers-only fast path
+  for step in ("2/3", "-2/3", "1/4", "3"):
+    for mask in range(8):
+      yield ("1/3", "5/2", step, mask, bool(mask & 5), run.pick(700, 3000))
 
 
 def run_modcounter(case):
@@ -581,7 +585,7 @@ def gen_resample(run):
   nmax = run.pick(12, 18)
   for p in (0, 1, 2, 3):
     for old, new in RATIOS:
-      for n in range(0, nmax + 1):
+      for n in list(range(0, nmax + 1)) + ([64, 65, 200] if (old, new) in (("2", "3"), ("3", "2"), ("7", "2"), ("1", "1")) else []):
         for zk in ("Q0", "sym"):
           for mode in ("const", "stream", "stream-short"):
             yield (n, old, new, p, zk, mode)
